@@ -13,6 +13,7 @@
   Property theorems only; helper lemmas are in BklProofs/Lemmas/{Tools,ToolsDiff}.lean.
 -/
 import BklProofs.Lemmas.ToolsDiff
+import BklProofs.Lemmas.ToolsCliProofs
 namespace Bkl
 
 /-! ### the shared witnesses `C15_target`, `C15_base`, `C15_base2` are in Lemmas/ToolsDiff.lean -/
@@ -183,5 +184,276 @@ theorem C15_delete_entry_accepted (src : List Val) (e : Val) (hs : plainVal (.li
 
 example : plainVal (.list [.map [("n", .int 1)], .str "x"]) = true ∧
     Val.map [("n", .int 1)] ∈ [Val.map [("n", .int 1)], .str "x"] := by decide
+
+/-! ## 5. the tool main: cmd/bkld/main.go (`Bkl.bkldRun`, Bkl/ToolsCli.lean)
+
+  Helper lemmas are in BklProofs/Lemmas/ToolsCliProofs.lean (prefix `tc_`); the sample file
+  system `tc_toolFS` holds /w/a.yaml (`tc_base`), /w/t.yaml (`tc_target`), /w/c.json, /w/two.yaml
+  (two documents), /w/none.yaml (no document) and /w/r.yaml. -/
+
+/-- The output format of bkld and bkli: the `-f` value if it is given and non-empty; else the
+    extension of `-o` if `-o` is given and has a non-empty extension; else the fallback (the
+    format FileMatch reported for the first input). -/
+theorem C15_tool_format_choice (opts : ToolOpts) (fb : String) :
+    (∀ f, opts.format = some f → f ≠ "" → toolFormat opts fb = f) ∧
+    (∀ o, (opts.format = none ∨ opts.format = some "") → opts.outPath = some o →
+        extOfPath o ≠ "" → toolFormat opts fb = extOfPath o) ∧
+    ((opts.format = none ∨ opts.format = some "") →
+        (opts.outPath = none ∨ ∃ o, opts.outPath = some o ∧ extOfPath o = "") →
+        toolFormat opts fb = fb) :=
+  ⟨fun f hf hne => tc_toolFormat_f opts fb f hf hne,
+   fun o hf ho hne => tc_toolFormat_o opts fb o hf ho hne,
+   fun hf ho => tc_toolFormat_fb opts fb hf ho⟩
+
+/-- `-o out.toml` → toml -/
+example : toolFormat { outPath := some "out.toml" } "yaml" = "toml" := by
+  rw [(C15_tool_format_choice _ _).2.1 "out.toml" (.inl rfl) rfl (by rw [tc_ext_out_toml]; decide),
+    tc_ext_out_toml]
+
+/-- `-o out` → the fallback -/
+example : toolFormat { outPath := some "out" } "yaml" = "yaml" :=
+  (C15_tool_format_choice _ _).2.2 (.inl rfl) (.inr ⟨"out", rfl, tc_ext_out⟩)
+
+/-- a dot in a directory name is not an extension: `-o d.x/out` → the fallback -/
+example : toolFormat { outPath := some "d.x/out" } "yaml" = "yaml" :=
+  (C15_tool_format_choice _ _).2.2 (.inl rfl) (.inr ⟨"d.x/out", rfl, tc_ext_dir_out⟩)
+
+/-- `-f yaml -o out.json` → yaml -/
+example : toolFormat { format := some "yaml", outPath := some "out.json" } "toml" = "yaml" :=
+  (C15_tool_format_choice _ _).1 "yaml" rfl (by decide)
+
+/-- an empty `-f` counts as not given: `-f "" -o out.json` → json -/
+example : toolFormat { format := some "", outPath := some "out.json" } "toml" = "json" := by
+  rw [(C15_tool_format_choice _ _).2.1 "out.json" (.inr rfl) rfl (by rw [tc_ext_out_json]; decide),
+    tc_ext_out_json]
+
+/-- neither `-f` nor `-o` → the fallback -/
+example : toolFormat {} "yaml" = "yaml" :=
+  (C15_tool_format_choice _ _).2.2 (.inl rfl) (.inl rfl)
+
+/-- `getOnlyDocument` (FileMatch + a fresh parser + MergeFileLayers + "exactly 1 source
+    document") succeeds exactly when the argument resolves, the layers of the file merge, and the
+    merged parser state holds exactly one document; it returns that document and the format
+    FileMatch reported. -/
+theorem C15_getOnlyDocument_iff (fs : FS) (cwd : Comps) (path : String) (d : Val) (f : String) :
+    getOnlyDocument fs cwd path = .ok (d, f) ↔
+      ∃ real st id, fileMatch fs cwd path = .ok (real, f) ∧
+        mergeFileLayers fs { root := [], cwd := cwd } PState.empty real = .ok st ∧
+        st.docs = [(id, d)] :=
+  tc_getOnlyDocument_ok_iff fs cwd path d f
+
+example : getOnlyDocument tc_toolFS ["w"] "a.yaml" = .ok (tc_base, "yaml") := tc_toolFS_get_a
+
+/-- the argument `a.toml` resolves to /w/a.yaml; the reported format is the argument's -/
+example : getOnlyDocument tc_toolFS ["w"] "a.toml" = .ok (tc_base, "toml") := tc_toolFS_get_a_toml
+
+/-- inheritance applies to tool inputs too: /w/a.b.json of `chainFS` (BklProofs/Lemmas/Files.lean)
+    is layered over /w/a.yaml before the tool sees it -/
+example : getOnlyDocument chainFS ["w"] "a.b.json" =
+    .ok (.map [("x", .int 1), ("y", .int 2)], "json") := tc_chainFS_get_ab
+
+/-- bkld succeeds exactly when it has two inputs, each of them yields exactly one merged document,
+    both documents evaluate (`Document.Process`) to exactly one document, and the chosen format is
+    supported; the result is `diffDoc` of the two *evaluated* documents (target first). -/
+theorem C15_bkld_result_iff (fs : FS) (cwd : Comps) (env : Vars) (opts : ToolOpts)
+    (r : ToolResult) :
+    bkldRun fs cwd env opts = .ok r ↔
+      ∃ b t base target f ft base' target',
+        opts.inputs = [b, t] ∧
+        getOnlyDocument fs cwd b = .ok (base, f) ∧ getOnlyDocument fs cwd t = .ok (target, ft) ∧
+        processOnly env base = .ok base' ∧ processOnly env target = .ok target' ∧
+        toolFormat opts f ∈ supportedExts ∧
+        r = { format := toolFormat opts f, doc := diffDoc target' base' } :=
+  tc_bkldRun_ok_iff fs cwd env opts r
+
+/-- the forward direction, field by field -/
+theorem C15_bkld_result (fs : FS) (cwd : Comps) (env : Vars) (opts : ToolOpts) (r : ToolResult)
+    (h : bkldRun fs cwd env opts = .ok r) :
+    ∃ b t base target f ft base' target',
+      opts.inputs = [b, t] ∧
+      getOnlyDocument fs cwd b = .ok (base, f) ∧ getOnlyDocument fs cwd t = .ok (target, ft) ∧
+      processOnly env base = .ok base' ∧ processOnly env target = .ok target' ∧
+      r.doc = diffDoc target' base' ∧
+      r.format = toolFormat opts f ∧ r.format ∈ supportedExts := by
+  obtain ⟨b, t, base, target, f, ft, base', target', hi, hb, ht, hpb, hpt, hmem, rfl⟩ :=
+    (C15_bkld_result_iff fs cwd env opts r).1 h
+  exact ⟨b, t, base, target, f, ft, base', target', hi, hb, ht, hpb, hpt, rfl, rfl, hmem⟩
+
+/-- `bkld a.yaml t.yaml` on the sample file system -/
+theorem C15_bkld_sample :
+    bkldRun tc_toolFS ["w"] [] { inputs := ["a.yaml", "t.yaml"] } =
+      .ok { format := "yaml",
+            doc := some (.map [("$match", .map []), ("a", .int 2), ("b", .str "$delete"),
+                               ("c", .bool true)]) } := by
+  rw [tc_bkldRun_two _ _ _ _ "a.yaml" "t.yaml" rfl, tc_toolFS_get_a]
+  simp only
+  rw [show processOnly [] tc_base = .ok tc_base by decide]
+  simp only
+  rw [tc_toolFS_get_t]
+  simp only
+  rw [show processOnly [] tc_target = .ok tc_target by decide]
+  simp only
+  rw [show toolFormat { inputs := ["a.yaml", "t.yaml"] } "yaml" = "yaml" from rfl,
+    tc_checkFormat_of_mem (by decide)]
+  simp only
+  rw [show diffDoc tc_target tc_base = some (.map [("$match", .map []), ("a", .int 2),
+    ("b", .str "$delete"), ("c", .bool true)]) by decide]
+
+example : ∃ r, bkldRun tc_toolFS ["w"] [] { inputs := ["a.yaml", "t.yaml"] } = .ok r :=
+  ⟨_, C15_bkld_sample⟩
+
+/-- The round trip for the layer that the modelled CLI emits.  Let bkld succeed on inputs whose
+    evaluated documents are the maps `bf` (base: well-formed, no `$match` key) and `tf` (target:
+    plain).  Then
+    * either nothing is emitted and the two evaluated documents are equal, or the emitted layer
+      is a map carrying `$match: {}` whose body (what the parser merges) is accepted by `merge`
+      over the evaluated base and yields the evaluated target (`C15_roundtrip_wf_base`);
+    * nothing is emitted iff the two evaluated documents are the same (`C15_same_iff`). -/
+theorem C15_bkld_cli_roundtrip (fs : FS) (cwd : Comps) (env : Vars) (opts : ToolOpts)
+    (r : ToolResult) (b t : String) (base target : Val) (f ft : String) (bf tf : Fields)
+    (h : bkldRun fs cwd env opts = .ok r) (hi : opts.inputs = [b, t])
+    (hb : getOnlyDocument fs cwd b = .ok (base, f))
+    (ht : getOnlyDocument fs cwd t = .ok (target, ft))
+    (hpb : processOnly env base = .ok (.map bf)) (hpt : processOnly env target = .ok (.map tf))
+    (hplt : plainVal (.map tf) = true) (hwb : Val.WF (.map bf))
+    (hbm : fget bf "$match" = none) :
+    r.doc = diffDoc (.map tf) (.map bf) ∧
+    (match r.doc with
+     | none => Val.map tf = Val.map bf
+     | some layer => ∃ m, layer = .map m ∧ fget m "$match" = some (.map []) ∧
+         merge (.map bf) (.map (fdel m "$match")) = .ok (.map tf)) ∧
+    (r.doc = none ↔ Val.map tf = Val.map bf) := by
+  obtain ⟨b', t', base1, target1, f1, ft1, base2, target2, hi', hb', ht', hpb', hpt', hdoc, _, _⟩ :=
+    C15_bkld_result fs cwd env opts r h
+  rw [hi] at hi'
+  obtain ⟨rfl, rfl⟩ : b = b' ∧ t = t' := by simpa using hi'
+  rw [hb] at hb'; cases hb'
+  rw [ht] at ht'; cases ht'
+  rw [hpb] at hpb'; cases hpb'
+  rw [hpt] at hpt'; cases hpt'
+  refine ⟨hdoc, ?_, ?_⟩
+  · rw [hdoc]
+    exact C15_roundtrip_wf_base tf bf hplt hwb hbm
+  · rw [hdoc, tc_diffDoc_none_iff, C15_same_iff _ _ hplt hwb]
+    constructor
+    · rintro (h1 | h1)
+      · exact h1
+      · exact absurd h1 (C15_doc_never_replaceParent tf bf)
+    · exact fun h1 => .inl h1
+
+example : (∃ r, bkldRun tc_toolFS ["w"] [] { inputs := ["a.yaml", "t.yaml"] } = .ok r) ∧
+    ({ inputs := ["a.yaml", "t.yaml"] } : ToolOpts).inputs = ["a.yaml", "t.yaml"] ∧
+    getOnlyDocument tc_toolFS ["w"] "a.yaml" = .ok (tc_base, "yaml") ∧
+    getOnlyDocument tc_toolFS ["w"] "t.yaml" = .ok (tc_target, "yaml") ∧
+    processOnly [] tc_base = .ok (.map [("a", .int 1), ("b", .str "x")]) ∧
+    processOnly [] tc_target = .ok (.map [("a", .int 2), ("c", .bool true)]) ∧
+    plainVal (.map [("a", .int 2), ("c", .bool true)]) = true ∧
+    Val.WF (.map [("a", .int 1), ("b", .str "x")]) ∧
+    fget [("a", Val.int 1), ("b", .str "x")] "$match" = none :=
+  ⟨⟨_, C15_bkld_sample⟩, rfl, tc_toolFS_get_a, tc_toolFS_get_t, by decide, by decide, by decide,
+    by decide, by decide⟩
+
+/-- … and through the parser, for plain evaluated documents: a parser holding the evaluated
+    base as its single document `B`, given the emitted layer as document `L` with parent `B`,
+    ends with the evaluated target as its only document (`C15_roundtrip_parser`). -/
+theorem C15_bkld_cli_roundtrip_parser (fs : FS) (cwd : Comps) (env : Vars) (opts : ToolOpts)
+    (r : ToolResult) (b t : String) (base target : Val) (f ft : String) (bf tf : Fields)
+    (layer : Val)
+    (h : bkldRun fs cwd env opts = .ok r) (hi : opts.inputs = [b, t])
+    (hb : getOnlyDocument fs cwd b = .ok (base, f))
+    (ht : getOnlyDocument fs cwd t = .ok (target, ft))
+    (hpb : processOnly env base = .ok (.map bf)) (hpt : processOnly env target = .ok (.map tf))
+    (hplt : plainVal (.map tf) = true) (hplb : plainVal (.map bf) = true)
+    (hl : r.doc = some layer) :
+    ∃ st', mergeDocument { docs := [("B", .map bf)], known := [("B", [])] }
+        { id := "L", parents := ["B"], data := layer } = .ok st' ∧
+      st'.docs = [("B", .map tf)] := by
+  have h1 := (C15_bkld_cli_roundtrip fs cwd env opts r b t base target f ft bf tf h hi hb ht hpb hpt
+    hplt (plainVal_wf hplb) (plainVal_fget_dollar hplb (by decide))).1
+  rw [hl] at h1
+  exact C15_roundtrip_parser tf bf layer hplt hplb h1.symm
+
+example : (∃ r, bkldRun tc_toolFS ["w"] [] { inputs := ["a.yaml", "t.yaml"] } = .ok r) ∧
+    plainVal (.map [("a", .int 2), ("c", .bool true)]) = true ∧
+    plainVal (.map [("a", .int 1), ("b", .str "x")]) = true :=
+  ⟨⟨_, C15_bkld_sample⟩, by decide, by decide⟩
+
+/-- "exactly one document": if the merged state of an input file has 0 or ≥ 2 documents,
+    `getOnlyDocument` fails, and so does every tool that is given this input — a first document
+    is never chosen silently.  (`bkldRun`/`bkliRun` may already have failed on an earlier input.) -/
+theorem C15_one_document_required (fs : FS) (cwd : Comps) (path : String) (real : Comps)
+    (f : String) (st : PState) (hm : fileMatch fs cwd path = .ok (real, f))
+    (hl : mergeFileLayers fs { root := [], cwd := cwd } PState.empty real = .ok st)
+    (hn : st.docs.length ≠ 1) :
+    getOnlyDocument fs cwd path = .error .other ∧
+    (∀ env opts, path ∈ opts.inputs → ∃ e, bkldRun fs cwd env opts = .error e) ∧
+    (∀ opts, path ∈ opts.inputs → ∃ e, bkliRun fs cwd opts = .error e) ∧
+    (∀ opts, path ∈ opts.inputs → ∃ e, bklrRun fs cwd opts = .error e) ∧
+    -- the exact error when the offending file is the first input
+    (∀ env opts t, opts.inputs = [path, t] → bkldRun fs cwd env opts = .error .other) ∧
+    (∀ opts p rest, opts.inputs = path :: p :: rest → bkliRun fs cwd opts = .error .other) ∧
+    (∀ opts, opts.inputs = [path] → bklrRun fs cwd opts = .error .other) := by
+  have hg := tc_getOnlyDocument_not_one hm hl hn
+  have hne : ∀ d, getOnlyDocument fs cwd path ≠ .ok d := by
+    intro d hd; rw [hg] at hd; cases hd
+  refine ⟨hg, ?_, ?_, ?_, ?_, ?_, ?_⟩
+  · intro env opts hp
+    cases hr : bkldRun fs cwd env opts with
+    | error e => exact ⟨e, rfl⟩
+    | ok r =>
+      obtain ⟨b, t, base, target, f', ft, _, _, hi, hb, ht, _⟩ :=
+        (C15_bkld_result_iff fs cwd env opts r).1 hr
+      rw [hi] at hp
+      simp only [List.mem_cons, List.not_mem_nil, or_false] at hp
+      rcases hp with rfl | rfl
+      · exact absurd hb (hne _)
+      · exact absurd ht (hne _)
+  · intro opts hp
+    cases hr : bkliRun fs cwd opts with
+    | error e => exact ⟨e, rfl⟩
+    | ok r =>
+      obtain ⟨first, second, rest, d0, f0, ds, hi, hf, _⟩ := (tc_bkliRun_ok_iff fs cwd opts r).1 hr
+      rw [hi] at hp
+      have hm' := (tc_mapM_ok_iff _ _ _).2 hf
+      obtain ⟨e, he⟩ := tc_mapM_error_of_mem (getOnlyDocument fs cwd) _ path hp ⟨_, hg⟩
+      rw [he] at hm'; cases hm'
+  · intro opts hp
+    cases hr : bklrRun fs cwd opts with
+    | error e => exact ⟨e, rfl⟩
+    | ok r =>
+      obtain ⟨p, data, f', hi, hgp, _⟩ := (tc_bklrRun_ok_iff fs cwd opts r).1 hr
+      rw [hi] at hp
+      simp only [List.mem_cons, List.not_mem_nil, or_false] at hp
+      subst hp
+      exact absurd hgp (hne _)
+  · intro env opts t hi
+    rw [tc_bkldRun_two fs cwd env opts path t hi, hg]
+  · intro opts p rest hi
+    rw [tc_bkliRun_many fs cwd opts path p rest hi, mapM_R_cons, hg]
+  · intro opts hi
+    rw [tc_bklrRun_one fs cwd opts path hi, hg]
+
+/-- two documents in /w/two.yaml, none in /w/none.yaml -/
+example : fileMatch tc_toolFS ["w"] "two.yaml" = .ok (["w", "two.yaml"], "yaml") ∧
+    mergeFileLayers tc_toolFS { root := [], cwd := ["w"] } PState.empty ["w", "two.yaml"] =
+      .ok { docs := [("/w/two.yaml|doc0", tc_base), ("/w/two.yaml|doc1", tc_target)],
+            known := [("/w/two.yaml|doc0", []), ("/w/two.yaml|doc1", [])] } ∧
+    [("/w/two.yaml|doc0", tc_base), ("/w/two.yaml|doc1", tc_target)].length ≠ 1 :=
+  ⟨tc_toolFS_match_two, tc_toolFS_layers_two, by decide⟩
+
+example : fileMatch tc_toolFS ["w"] "none.yaml" = .ok (["w", "none.yaml"], "yaml") ∧
+    mergeFileLayers tc_toolFS { root := [], cwd := ["w"] } PState.empty ["w", "none.yaml"] =
+      .ok PState.empty ∧ PState.empty.docs.length ≠ 1 :=
+  ⟨tc_toolFS_match_none, tc_toolFS_layers_none, by decide⟩
+
+/-- `bkld a.yaml two.yaml` fails although /w/two.yaml's first document alone would do -/
+example : bkldRun tc_toolFS ["w"] [] { inputs := ["a.yaml", "two.yaml"] } = .error .other := by
+  have hg := (C15_one_document_required tc_toolFS ["w"] "two.yaml" _ _ _ tc_toolFS_match_two
+    tc_toolFS_layers_two (by decide)).1
+  rw [tc_bkldRun_two _ _ _ _ "a.yaml" "two.yaml" rfl, tc_toolFS_get_a]
+  simp only
+  rw [show processOnly [] tc_base = .ok tc_base by decide]
+  simp only
+  rw [hg]
 
 end Bkl
